@@ -227,7 +227,15 @@ void runS5(Ctx &ctx, const QString &caseId, const QJsonObject &beh, int idx)
             break;
         }
     }
-    const QByteArray file = randomBytes(size, seed);
+    QByteArray file = randomBytes(size, seed);
+    {
+        // Swap exchanges unit u with the unit behind it: with equal contents (likely for 1-byte
+        // units) that would be no fault at all, so make the two differ
+        const qint64 at = qint64(fo["at"].toDouble()) * unit;
+        if (fo["k"].toString() == "Swap" && at + unit < size && file.mid(int(at), int(unit)) == file.mid(int(at + unit), int(unit))) {
+            file[int(at + unit)] = char(file[int(at + unit)] ^ 1);
+        }
+    }
 
     Proxy proxy;
     proxy.fault.k = fo["k"].toString("none");
